@@ -546,18 +546,24 @@ fn main() {
     let mut programs = 0u64;
     let progs = templates(thorough);
     let per_program_cap = max_leaves / progs.len().max(1) as u64 + 200;
+    let n_progs = progs.iter().filter(|p| only.as_ref().map_or(true, |o| p.name.starts_with(o.as_str()))).count() as u64;
     'programs: for p in progs {
         if let Some(o) = &only {
             if !p.name.starts_with(o.as_str()) {
                 continue;
             }
         }
+        // time is shared fairly: each program gets an equal share of what is left (a program with expensive
+        // leaves - cleaners that block everybody force 60 ms switches - must not starve the ones after it)
+        let elapsed_ms = report.started.elapsed().as_millis() as u64;
+        let remaining_ms = (budget_s * 1000).saturating_sub(elapsed_ms);
+        let program_deadline = Instant::now() + Duration::from_millis(remaining_ms / (n_progs - programs).max(1));
         programs += 1;
         let mut prefix: Vec<usize> = Vec::new();
         let mut leaves = 0u64;
         let mut complete = false;
         loop {
-            if report.started.elapsed().as_secs() > budget_s || leaves >= per_program_cap {
+            if (leaves > 0 && Instant::now() > program_deadline) || leaves >= per_program_cap {
                 break;
             }
             let leaf = run_leaf(&p, &prefix, grace);
